@@ -208,13 +208,15 @@ Definition pvalue (v : value) : bytes :=
   | VListDoubles l => s2b "(doubles " ++ join [44] (map ptext l) ++ [41]
   | VListStrings l => s2b "(strings " ++ join [44] (map ptext l) ++ [41]
   end.
-Fixpoint pquery (q : query) : bytes :=
+(* printed with an accumulator: linear in the size of the output also for left-deep chains of 100 000 operands *)
+Fixpoint pquery_acc (q : query) (acc : bytes) : bytes :=
   match q with
-  | QParen neg q1 => (if neg then s2b "(notparen " else s2b "(paren ") ++ pquery q1 ++ [41]
-  | QLogic isor l r => (if isor then s2b "(or " else s2b "(and ") ++ pquery l ++ sp ++ pquery r ++ [41]
-  | QPresent p => s2b "(pr " ++ ppath p ++ [41]
-  | QCompare p op v => s2b "(cmp " ++ ppath p ++ sp ++ pop op ++ sp ++ pvalue v ++ [41]
+  | QParen neg q1 => (if neg then s2b "(notparen " else s2b "(paren ") ++ pquery_acc q1 (41 :: acc)
+  | QLogic isor l r => (if isor then s2b "(or " else s2b "(and ") ++ pquery_acc l (32 :: pquery_acc r (41 :: acc))
+  | QPresent p => s2b "(pr " ++ ppath p ++ 41 :: acc
+  | QCompare p op v => s2b "(cmp " ++ ppath p ++ sp ++ pop op ++ sp ++ pvalue v ++ 41 :: acc
   end.
+Definition pquery (q : query) : bytes := pquery_acc q [].
 
 (* a float as sign/odd mantissa/exponent *)
 Definition pf64 (f : f64) : bytes :=
